@@ -143,6 +143,13 @@ def main(tier, replay):
                 replies.append(r)
             else:
                 replies.append("close")
+            # the final reply may spell "no more replies" as: member absent, false, or null
+            if isinstance(replies[-1], dict):
+                sp = rng.below(3)
+                if sp == 1:
+                    replies[-1]["continues"] = False
+                elif sp == 2:
+                    replies[-1]["continues"] = None
             cases.append((replies, more, forms[i % len(forms)], "on" if (i // len(forms)) % 2 else "off"))
     try:
         for (replies, more, form, color) in cases:
